@@ -43,3 +43,10 @@ extern "C" void h_pat2()
     vf_assert(re.isValid(), "valid");
     vf_witness();
 }
+extern "C" void h_slice()
+{
+    int a = vf_range(0, 5); int b = vf_range(0, 5); int c = vf_range(0, 5); bool d = vf_nondet_bool(); int e = vf_range(0, 9);
+    int unrelated = b * 3 + e;
+    vf_assert(a != 3 || unrelated < 0, "slice-test");
+    vf_witness();
+}
